@@ -9,45 +9,45 @@ sys.path.insert(0, ROOT)
 from vf import props as P  # noqa: E402
 
 INFO = {
-    'C01': ('exploration', 'Generated operation histories (rapidcheck; libFuzzer in the thorough tier) over ~37 container configurations are run against a std::vector<int> reference model compared after every operation, with ASan/UBSan and assertions on. Held on everything explored; not a proof.', '3/C01',
+    'C01': ('exploration', 'Generated operation histories (rapidcheck; libFuzzer in the thorough tier) over 45 container configurations (9 of them also as C++11/14/20; element kinds incl. copy-only and move-only) are run against a std::vector<int> reference model compared after every operation, with ASan/UBSan and assertions on. Held on everything explored; not a proof.', '3/C01',
             'model-based stateful property testing (rapidcheck tapes, std::vector reference model)'),
     'C02': ('exploration', 'The same histories with identity-tracking element types (cell table = exactly-once destruction, self pointer + address registry = no bitwise move of non relocatable types, magic = no use outside lifetime), in C++11/14/17/20 builds, under ASan/UBSan.', '3/C02',
             'model-based stateful property testing with an object-lifetime ledger oracle'),
-    'C05': ('exploration', 'Histories under a within-N discipline; per-container flag tracks whether the inline promise still applies; oracle = allocator-request counter, malloc hook, capacity()==N, data() inside the object.', '3/C05',
+    'C05': ('exploration', 'Histories under a within-N discipline; per-container flag tracks whether the inline promise still applies; oracle = allocator-request counter, malloc hook, capacity()==N, all inline slots inside the object; SmallVector/FixedCapacityVector configurations also as C++11/14/20, SmallSets up to N=20.', '3/C05',
             'stateful property testing with allocation counters (allocator ledger + sanitizer malloc hook)'),
-    'C06': ('exploration', 'Generated histories on three instrumented allocator kinds (pointer->count ledger: exact count on deallocate/reallocate, exactly once, nothing outstanding, reallocate only for trivially relocatable types, capacity word == block size after every op), growing calls under allocation failure, and a complete small grid for BasicAllocatorWrapper::reallocate.', '3/C06, 10',
+    'C06': ('exploration', 'Generated histories on three instrumented allocator kinds (pointer->count ledger: exact count on deallocate/reallocate, exactly once, nothing outstanding, reallocate only for trivially relocatable types, capacity word == block size after every op), growing calls under allocation failure, self move assignment, the swap2 pair grid across allocator and size types, and a complete small grid for BasicAllocatorWrapper::reallocate.', '3/C06, 10',
             'stateful property testing with an allocation-ledger oracle; small exhaustive grid for reallocate'),
     'C07': ('exploration', 'Generated histories with snapshots of data(), capacity(), element identities around every operation (std::vector invalidation rules as predicates) and the swap2 pair grid for size() <= capacity().', '3/C07, 10',
             'stateful property testing with before/after snapshot predicates'),
     'C03': ('exploration', 'Generated histories over pools of FlatSets (5 comparators x 4 underlying vector types x 4 element kinds) against std::set<int,ModelCmp>: exact element sequence, strict ordering under the set\'s own comparator object, every returned bool/count/position/node compared after each operation.', '3/C03',
             'model-based stateful property testing (std::set reference model)'),
-    'C08': ('exploration', 'Complete grid at the limit (FixedCapacityVector N in {1,2,3,7,15}; 8-bit size types; uint16 sampled): 24 growing operations x positions x counts incl. values that overflow the size type arithmetic, at() grid; plus limit probes inside generated histories. Oracle: documented exception type and a byte-for-byte unchanged container (contents, size, capacity, data(), identities, live objects, blocks), follow-up operations.', '3/C08, 10',
+    'C08': ('exploration', 'Complete grid at the limit (FixedCapacityVector N in {1,2,3,7,15}; 8-bit size types; uint16 sampled): 24 growing operations x positions x counts incl. values that overflow 8/16/32/64-bit size arithmetic, swap2 across size types at the limit, at() grid; plus limit probes inside generated histories. Oracle: documented exception type and a byte-for-byte unchanged container (contents, size, capacity, data(), identities, live objects, blocks), follow-up operations.', '3/C08, 10',
             'bounded-exhaustive grid + property testing with generated limit probes and an unchanged-snapshot oracle'),
     'C10': ('exploration', 'Complete grid (size x position x source index x count x spare capacity x 10 call forms incl. arguments constructed from a pointer to an element x 6 flavours x 6 element categories) against copy-first-then-call on std::vector; the same calls inside generated histories.', '3/C10, 10',
             'bounded-exhaustive grid + model-based property testing of aliasing calls'),
     'C13': ('exploration', 'Every ordered pair of 9 vector flavours x 4 element categories x operand recipes (empty, inline partial, inline exactly full, heap with spare, heap emptied) x sizes incl. 200/255/256/300: exchanged exactly or thrown with both unchanged, never std::terminate; ledgers, follow-up operations; plus same-type swap2 in generated histories.', '3/C13, 10',
             'bounded-exhaustive pair grid + model-based property testing of swap2'),
-    'C14': ('exploration', 'Generated histories with a RELOCATE step (memcpy the container object to fresh storage, poison and free the source) on every container type declaring trivially_relocatable (vectors, FlatSet, FlatSet-backed SmallSet); a static table checks that no container claims the trait when an element type or comparator is not relocatable.', '3/C14, 10',
+    'C14': ('exploration', 'Generated histories with a RELOCATE step (memcpy the container object to fresh storage, poison and free the source) on every container type declaring trivially_relocatable (vectors, FlatSet, FlatSet-backed SmallSet); vector histories also as C++11/14/20; a static table checks that no container claims the trait when an element type or comparator is not relocatable.', '3/C14, 10',
             'stateful property testing with injected byte-wise relocation; static trait table'),
     'C04': ('exploration', 'Bounded-exhaustive search over the abstract states (content, inline/large, node handle) of a SmallSet for small N and k=N+2 keys with every operation of an alphabet applied from every state, plus generated histories over pools of SmallSets (N up to 8, 5 comparators, std::set and FlatSet backings, siblings of another N/comparator) against std::set<int,ModelCmp>; libFuzzer in the thorough tier.', '3/C04, 10',
             'bounded-exhaustive state search + model-based stateful property testing (std::set reference model)'),
-    'C11': ('exploration', 'The C04 bounded-exhaustive state search and SmallSet histories with erase(pos)/erase(range)/erase-while-iterating weighted up; after every operation forward and reverse walks must visit exactly the model elements once (operator* and operator->), returned iterators equal end() iff they designate nothing, the standard erase loop terminates having visited every element once.', '3/C11, 10',
+    'C11': ('exploration', 'The C04 bounded-exhaustive state search and SmallSet histories with erase(pos)/erase(range)/erase-while-iterating weighted up; after every operation forward and reverse walks must visit exactly the model elements once (operator* and operator->, it++/it--/--it return values, postfix backward walk), returned iterators equal end() iff they designate nothing, the standard erase loop terminates having visited every element once.', '3/C11, 10',
             'bounded-exhaustive state search + stateful property testing of the iterator contract'),
-    'C09': ('fault_enumeration', 'For every scenario of a complete small grid and for generated larger scenarios, a dry run counts the fault points inside the call and the scenario is re-run once per fault index k with that element construction/copy/assignment or allocator request throwing (vectors); generated FlatSet and SmallSet histories with the k-th fault armed, and vector histories with failing allocations. Basic guarantee always, strong guarantee for the documented operations. Single faults, complete over k for the grid.', '3/C09, 10',
+    'C09': ('fault_enumeration', 'For every scenario of a complete small grid and for generated larger scenarios, a dry run counts the fault points inside the call and the scenario is re-run once per fault index k with that element construction/copy/assignment or allocator request throwing (vector flavours x elements with throwing copies and noexcept moves, and a copy-only element whose every move is a throwing copy); generated FlatSet and SmallSet histories with the k-th fault armed, and vector histories with failing allocations. Basic guarantee always, strong guarantee for the documented operations. Single faults, complete over k for the grid.', '3/C09, 10',
             'fault injection enumerated over every throw index, ledger + snapshot oracles'),
     'C12': ('exploration', 'Complete enumeration of contents (all subsets of k keys) x hint positions x values x call forms for 11 comparator/vector/element configurations, metamorphic oracle hinted == plain insertion == std::set; plus hinted insertions inside generated FlatSet histories.', '3/C12',
             'bounded-exhaustive enumeration with a metamorphic oracle'),
-    'C18': ('exploration', 'Counter-based check of the stated bounds over a grid of n, start states and configurations: capacity changes, relocated elements, allocator requests, growth factor, reserve/shrink_to_fit post-conditions.', '3/C18',
+    'C18': ('exploration', 'Counter-based check of the stated bounds over a grid of n, start states and configurations: capacity changes, relocated elements, allocator requests, growth factor (one-by-one and bulk growing operations), reserve/shrink_to_fit post-conditions incl. buffers taken over from a vector; the factor predicate also inside generated vector histories.', '3/C18',
             'generated grid with counting oracles (reallocations, relocations, allocator requests)'),
-    'C19': ('exploration', 'Comparator-call counting for every key rank of FlatSets of every size up to 300 and around powers of two, every correct hint, and SmallSet inline lookups for every fill.', '3/C19',
+    'C19': ('exploration', 'Comparator-call counting for every key rank of FlatSets of every size up to 400 and around powers of two up to 4096 (65536 thorough), heterogeneous keys equivalent to runs of elements, every correct hint, SmallSet inline lookups and position searches for every fill and beyond N, hinted insertion of a large SmallSet; builds with and without assertions.', '3/C19',
             'generated grid with a comparator-call counting oracle'),
-    'C15': ('fault_enumeration', 'Every memory.hpp algorithm x length 0..8 (plus seed-derived longer lengths) x source iterator category x destination kind x element category x every throw index, each built as C++11/14/17/20 so that the emulations and the std:: forwarding are both executed; reference semantics + ledger + canaries.', '3/C15',
+    'C15': ('fault_enumeration', 'Every memory.hpp algorithm x length 0..8 (plus seed-derived longer lengths) x source iterator category x destination kind x element category (incl. move-only / throwing-move / copy-noexcept kinds) x every throw index, construct_at on arrays, converting source/destination types, constructor overload choice, each built as C++11/14/17/20 so that the emulations and the std:: forwarding are both executed; reference semantics + ledger + canaries.', '3/C15',
             'bounded-exhaustive enumeration with fault injection at every throw index, 4 language standards'),
-    'C16': ('exploration', 'Differential testing: seed-generated tapes replayed by interpreters built in 8 (quick) / 32 (thorough) build configurations; transcripts must be byte-identical; absence of extras / SmallSet probed at compile time.', '3/C16',
+    'C16': ('exploration', 'Differential testing: seed-generated tapes replayed by interpreters built in 8 (quick) / 32 (thorough) build configurations; transcripts (incl. strong-guarantee calls under injected faults) must be byte-identical; absence of extras / SmallSet probed at compile time; a table of compile-time facts (sizeof, noexcept, traits) must be identical in every build.', '3/C16',
             'differential testing of generated scripts across build configurations'),
     'C17': ('exploration', 'A generated matrix of element types and N; the compiler evaluates the static facts, an independent formula derived from the statement predicts them; 4 language standards.', '3/C17',
             'generated configuration matrix evaluated by the compiler against an independent oracle formula'),
-    'C20': ('exploration', 'Generated multi-threaded reader programs under ThreadSanitizer with result comparison against single-threaded execution. Schedules are sampled, not owned by the harness.', '3/C20',
+    'C20': ('exploration', 'Generated multi-threaded reader programs (plus writer threads running the mutating interface on their own containers) under ThreadSanitizer with result comparison against single-threaded execution. Schedules are sampled, not owned by the harness.', '3/C20',
             'generated concurrent reader programs under ThreadSanitizer (sampled schedules)'),
 }
 NOTE = 'Trusted base: libstdc++ reference containers, the harness (harness/*.hpp), g++ 12 sanitizers, rapidcheck. Checks rebuild against /repo/include (content hash) on every run.'
